@@ -44,13 +44,33 @@ def verdicts(dump_path, mout):
     if rc != 0 or len(dl_all) != len(ml_all):
         return {"<driver>": {"line": "", "loaded": True, "pre": None, "post": None,
                              "bad": ["driver exit %d, %d answers for %d lines: %s" % (rc, len(ml_all), len(dl_all), err[-300:])]}}
+    stage, mem, first = None, set(), None
     for dl, ml in zip(dl_all, ml_all):
         if dl.startswith("CASE "):
             line = dl[5:]
-            cur = out.setdefault(line.split()[0], {"line": line, "loaded": False, "pre": None, "post": None, "bad": []})
+            cur = out.setdefault(line.split()[0], {"line": line, "loaded": False, "pre": None, "post": None, "bad": [],
+                                                   "nested": 0, "disallowed": False})
+            stage, mem, first = None, set(), None
         elif cur is None:
             continue
-        elif dl.startswith("LOADED "):
+        # coverage, read from the library's own dump: memory objects whose parent is a memory object (BEFORE block), and whether the
+        # stage had something to remove (AFTER block: no INCLUDE_DISALLOWED and root complete sets != allowed sets)
+        if dl.startswith("STAGE "):
+            stage, mem, first = dl.split(), set(), None
+        elif dl.startswith("O ") and stage:
+            t = dl.split()
+            if len(t) >= 10:
+                if first is None:
+                    first = t
+                    if stage[1] == "after":
+                        cur["disallowed"] = int(stage[2]) % 2 == 0 and (stage[3] != t[7] or stage[4] != t[9])
+                if t[5] == "M":
+                    mem.add(t[3])
+                    if t[4] in mem and stage[1] == "before":
+                        cur["nested"] += 1
+        if dl.startswith("CASE "):
+            continue
+        if dl.startswith("LOADED "):
             cur["loaded"] = dl.split()[2] == "1"
         elif dl == "END before":
             cur["pre"] = ml
@@ -103,7 +123,10 @@ def judge(v):
 RULE = ("each case = (source, type-filter assignment, flag subset) loaded with the HWLOC_VERIF stage hook writing the tree before 'Fixup root "
         "sets' and after remove_unused_sets/fixup_sets: generated synthetic strings, synthetic topologies re-imported from XML with random "
         "custom allowed sets (disallowed PUs/NUMA nodes), the bundled XML files (file and buffer, both XML back ends), the bundled Linux and "
-        "x86 snapshots; the model's output must equal the AFTER dump (allowed sets, every object's four sets, parent, list kind, order) and "
+        "x86 snapshots, and derived sources (kind R, harness/derive.h: any of the former loaded with every type kept, random subsets of its "
+        "PUs / NUMA nodes made the allowed sets, exported to current or v2 XML and re-loaded, so that the stage sees disallowed resources "
+        "below memory-side caches, i.e. memory objects nested in memory objects); IS_THISSYSTEM|THISSYSTEM_ALLOWED_RESOURCES on ~10 % of "
+        "the non-back-end cases; the MemCache filter keeps memory-side caches in about half of the cases; the model's output must equal the AFTER dump (allowed sets, every object's four sets, parent, list kind, order) and "
         "the BEFORE dump must satisfy PreSets; non-trivial = the stage ran; distinct = distinct (kind, flags, filters, source) tuples")
 
 
@@ -135,6 +158,13 @@ def run_engine(tier, seed, sizes=None):
                 stats["children_reordered"] = stats.get("children_reordered", 0) + 1
             if int(f["special"]):
                 stats["with_io_or_misc"] = stats.get("with_io_or_misc", 0) + 1
+        if v["pre"] and v.get("disallowed"):
+            stats["disallowed_removed"] = stats.get("disallowed_removed", 0) + 1
+        if v["pre"] and v.get("nested"):
+            stats["nested_memory"] = stats.get("nested_memory", 0) + 1
+            stats["nested_memory_objects"] = stats.get("nested_memory_objects", 0) + v["nested"]
+            if v.get("disallowed"):
+                stats["nested_memory_and_disallowed_removed"] = stats.get("nested_memory_and_disallowed_removed", 0) + 1
         if v["pre"]:
             stats["stage_ran"] += 1
             k = "pre_ok" if v["pre"] == "pre ok" else "pre_violated"
@@ -165,12 +195,23 @@ def run_engine(tier, seed, sizes=None):
         results = list(ex.map(lambda a: one_run(binp, workdir, a[0], a[1], n, sources), enumerate(seeds)))
     for r in results:
         cases = [l for l in r["plan"] if l and not l.startswith("#")]
+        for l in r["plan"]:
+            if l.startswith("# derived "):
+                t = l.split()
+                for k, v in zip(t[2::2], t[3::2]):
+                    stats["derived." + k] = stats.get("derived." + k, 0) + int(v)
         for l in cases:
             t = l.split(None, 4)
             if len(t) < 5:
                 continue
             cid, kind = t[0], t[1]
             stats["kind." + kind] = stats.get("kind." + kind, 0) + 1
+            if kind == "R":
+                stats["kind.R.from_" + t[4].split()[1]] = stats.get("kind.R.from_" + t[4].split()[1], 0) + 1
+            if len(t[3]) > 15 and t[3][15] in "023":
+                stats["filter.memcache_kept"] = stats.get("filter.memcache_kept", 0) + 1
+            if int(t[2]) & 4:
+                stats["thissystem_allowed_resources"] = stats.get("thissystem_allowed_resources", 0) + 1
             if int(t[2]) & 1:
                 stats["include_disallowed"] = stats.get("include_disallowed", 0) + 1
             v = r["verdicts"].get(cid)
